@@ -157,7 +157,7 @@ func TestC14(t *testing.T) {
 		for i := 0; i < n; i++ {
 			k := rapid.IntRange(0, 6).Draw(t, "k")
 			if rapid.Bool().Draw(t, "ins") {
-				w.sl.Insert2(w.item(k), skiplist.CompareInt, nil, buf, levelFn(rapid.IntRange(0, 5).Draw(t, "lvl")), &w.sl.Stats)
+				w.insert(k, buf, rapid.IntRange(0, 5).Draw(t, "lvl"), &w.sl.Stats)
 				f.logf("seq-insert(%d)", k)
 			} else if !w.mm {
 				w.sl.Delete(w.item(k), skiplist.CompareInt, buf, &w.sl.Stats)
